@@ -32,10 +32,17 @@ def shared_idless_at_commit(dag):
             if ch: refs[ch] += 1
     return any(idless[i] and refs[i] > 1 for i in range(1, n + 1))
 
+def jets_file(c):
+    """the crate's jet tables for the spec decoder (Codec.tla JetRows)"""
+    p = os.path.join(c.work, "jets.ndjson")
+    if not os.path.exists(p) or os.path.getmtime(p) < c.t0:
+        c.vh(["c14", "table", p])
+    return p
+
 def body(c):
     q = not c.thorough
     tier = "quick" if q else "thorough"
-    r = c.tlc_design("MC_Codec", "MC_Codec_programs_%s.cfg" % tier, heap="24g", timeout=3400, workers=16)
+    r = c.tlc_design("MC_Codec", "MC_Codec_programs_%s.cfg" % tier, heap="24g", timeout=3400, workers=16, env={"JETS": jets_file(c)})
     cases = tla_to_json_lines(r.prints, "CASE")
     cpath = os.path.join(c.work, "cases.ndjson")
     with open(cpath, "w") as f:
@@ -71,7 +78,7 @@ def body(c):
     c.vh(["c01", "record", runs, tpath], timeout=3000)
     def describe(ev):
         return ("c01:trace", json.dumps({k: ev[k] for k in ev if k not in ("dag", "ty", "aux")})[:500])
-    validate_trace(c, "Trace_Codec", "Trace_Codec.cfg", tpath, describe, heap="8g", env={"ALLOC_C0": 0, "ALLOC_K": 0})
+    validate_trace(c, "Trace_Codec", "Trace_Codec.cfg", tpath, describe, heap="8g", env={"JETS": jets_file(c), "ALLOC_C0": 0, "ALLOC_K": 0})
     c.assumptions += ["hidden roots and fail entropies are arbitrary fixed bit patterns", "jets are bound in the recorded direction (their codes come from the crate's tables, see C14)"]
     c.finish_kw = dict(exhaustive=True, rule=(
         "TLC: every well-typed 1->1 program up to 4 (5) nodes incl. witnesses (3 values per node), assertions, fail, words, "
